@@ -492,9 +492,10 @@ class MetadorGroup(MetadorNode):
         self.__wrapped__.copy(source, dst_path, **copy_kwargs)  # RAW
         dst_node = self[dst_path]  # exists now
 
-        if src_is_dataset and not without_meta:
+        src_meta: str = src_node.meta._base_dir
+        has_meta: bool = src_meta in self.__wrapped__  # any metadata attached?  # RAW
+        if src_is_dataset and has_meta and not without_meta:
             # because metadata lives in parallel group, need to copy separately:
-            src_meta: str = src_node.meta._base_dir
             dst_meta: str = dst_node.meta._base_dir  # node will not exist yet
             self.__wrapped__.copy(src_meta, dst_meta, **copy_kwargs)  # RAW
 
